@@ -537,6 +537,106 @@ func checkC17(c *Ctx, r *Report) {
 		}
 		r.add("C17.d", "readset", q.fn+":indices", q.fn+" answers from "+strings.Join(q.fields, "+"), []string{q.fn}, sites, viol)
 	}
+	if fi := need(c, r, "C17.d", "(*"+pkgSdg+".SymbolGraph).Descendants"); fi != nil {
+		// the visited set starts empty: it is only filled from inside the walk over children
+		// (a root that lies on a cycle is its own descendant)
+		viol := ""
+		var sites []string
+		n := 0
+		var stack []ast.Node
+		ast.Inspect(fi.Decl.Body, func(nd ast.Node) bool {
+			if nd == nil {
+				stack = stack[:len(stack)-1]
+				return true
+			}
+			stack = append(stack, nd)
+			as, ok := nd.(*ast.AssignStmt)
+			if !ok || len(as.Lhs) != 1 {
+				return true
+			}
+			if id, ok := as.Lhs[0].(*ast.Ident); ok && id.Name == "visited" && len(as.Rhs) == 1 {
+				if cl, ok := as.Rhs[0].(*ast.CompositeLit); ok && len(cl.Elts) > 0 {
+					n++
+					sites = append(sites, w.pos(as.Pos()))
+					viol = fmt.Sprintf("%s: the visited set is created non-empty (%s): a node reachable from itself is then missing from its own descendants, and Descendants is no longer the closure of Children", w.pos(as.Pos()), exprString(cl.Elts[0]))
+				}
+				return true
+			}
+			ix, ok := as.Lhs[0].(*ast.IndexExpr)
+			if !ok || exprString(ix.X) != "visited" {
+				return true
+			}
+			n++
+			sites = append(sites, w.pos(as.Pos()))
+			inLoop := false
+			for _, anc := range stack {
+				switch anc.(type) {
+				case *ast.RangeStmt, *ast.ForStmt:
+					inLoop = true
+				}
+			}
+			if !inLoop {
+				viol = fmt.Sprintf("%s: the visited set is seeded before the walk (with %s): a node reachable from itself is then missing from its own descendants, and Descendants is no longer the closure of Children", w.pos(as.Pos()), exprString(ix.Index))
+			}
+			return true
+		})
+		if n == 0 {
+			viol = "Descendants keeps no visited set (non-termination on cycles is C14's concern; here: nothing to check)"
+			viol = ""
+		}
+		r.add("C17.d", "traversal", fi.Key+":visited-starts-empty", "Descendants = everything reachable through one or more Children steps", []string{fi.Key}, sites, viol)
+	}
+	{
+		// version equality is the conjunction of all identity components
+		const eq = "(gast.FileVersion).Equals"
+		fi := need(c, r, "C17.c", eq)
+		if fi != nil {
+			viol := ""
+			var sites []string
+			sites = append(sites, w.pos(fi.Decl.Pos()))
+			for _, ex := range exitsOf(fi.SSA) {
+				if ex.Ret == nil || len(ex.Ret.Results) != 1 {
+					continue
+				}
+				for _, lv := range phiLeaves(unspill(ex.Ret.Results[0], ex.Block)) {
+					if k, ok := lv.(*ssa.Const); ok && isBoolConst(k, true) {
+						// a constant `true`: every component must have been compared equal on the way
+						hashOK, timeOK := false, false
+						for _, f := range guardsOfBlock(ex.Block) {
+							cnd, p := unwrapNot(f.Cond, f.Pol)
+							a := sliceOf(cnd)
+							if p && a.hasFieldNamed("Hash") {
+								hashOK = true
+							}
+							if p && a.hasFieldNamed("ModTime") {
+								timeOK = true
+							}
+						}
+						if !hashOK || !timeOK {
+							viol = fmt.Sprintf("%s: FileVersion.Equals answers true without both components (ModTime, Hash) having compared equal: a node re-added under a version that differs in one component only is taken for the stored one and the stale node is kept", w.pos(retPos(ex)))
+						}
+					}
+				}
+			}
+			read := map[string]bool{}
+			allInstrs(fi.SSA, true, func(_ *ssa.Function, _ *ssa.BasicBlock, _ int, ins ssa.Instruction) {
+				switch x := ins.(type) {
+				case *ssa.FieldAddr:
+					if v := structFieldVar(x.X.Type(), x.Field); v != nil {
+						read[v.Name()] = true
+					}
+				case *ssa.Field:
+					if v := structFieldVar(x.X.Type(), x.Field); v != nil {
+						read[v.Name()] = true
+					}
+				}
+			})
+			if !read["Hash"] || !read["ModTime"] {
+				viol = "FileVersion.Equals does not compare both ModTime and Hash"
+			}
+			r.add("C17.c", "readset", eq+":all-components", "two file versions are equal only if modification time and content hash both agree", []string{eq}, sites, viol)
+		}
+	}
 	if fi := need(c, r, "C17.d", "(*"+pkgSdg+".SymbolGraph).GetEdges"); fi != nil {
 		// incoming edges are filtered by target == key
 		viol := "incoming edges are not filtered by `desc.Edge.To.BaseId() != mapKey`"
